@@ -33,6 +33,20 @@ AX_PLACE = [
 ]
 
 
+# transition names: f"tr_{variable}_{up|down}_{index}" is modelled by the constructor trname(variable, up, index). It is injective (read the
+# text from the right: the last `_`-separated token is the index, the one before it the direction, the rest the variable) and never a place name
+# (places start with b0_ / b1_): ASSUMED, listed as trusted.
+trname = z3.Function("trname", Name, B, I, PNode)
+tr_var = z3.Function("tr_var", PNode, Name)
+tr_up = z3.Function("tr_up", PNode, B)
+tr_idx = z3.Function("tr_idx", PNode, I)
+_i = z3.Int("i!p")
+AX_TRNAME = [
+    z3.ForAll([_v, _b, _i], z3.And(tr_var(trname(_v, _b, _i)) == _v, tr_up(trname(_v, _b, _i)) == _b, tr_idx(trname(_v, _b, _i)) == _i,
+                                    z3.Not(is_place(trname(_v, _b, _i)))), patterns=[trname(_v, _b, _i)]),
+]
+
+
 class _TPNG(Ty):
     name = "PNGraph"
 
@@ -44,6 +58,7 @@ TPNG = _TPNG()
 TRUSTED = {
     "networkx.DiGraph (Petri net)": "nodes / predecessors / successors / has_edge / add_node / add_edge / remove_node "
                                     "(also removes incident edges) / copy.deepcopy (equal value, argument untouched)",
+    "transition names": "f\"tr_{variable}_{up|down}_{index}\" is injective in its three arguments and never a place name (AX_TRNAME)",
 }
 
 
@@ -77,6 +92,45 @@ class PNGModel(ObjModel):
             new = PNGraph.mk(z3.Store(nodes, x, False), edge)
             eng.assign(recv_expr, Val(TPNG, new), st)
             return NONE
+        if meth == "add_node":
+            # networkx: a new node has no edges; an existing one keeps them. The attributes written must be the ones the node's NAME
+            # determines (kind / change / direction are functions of the name in this model): obligations, not assumptions.
+            from . import aspmodel as A
+            x = args[0]
+            if x.ty != TPNode:
+                raise OutOfSubset(f"add_node with a {x.ty} name")
+            x = x.t
+            kind = kw.get("kind")
+            if not isinstance(kind, E._StrLit) or kind.s not in ("place", "transition"):
+                raise OutOfSubset("add_node without a literal kind")
+            eng.oblige(st, f"add_node.kind_matches_the_name@{node.lineno}", A.kind_of(x) == (0 if kind.s == "place" else 1), node.lineno, kind="safety")
+            if kind.s == "transition":
+                ch, dr = kw.get("change"), kw.get("direction")
+                if ch is None or ch.ty != TName or dr is None:
+                    raise OutOfSubset("add_node(kind='transition') without change / direction")
+                eng.oblige(st, f"add_node.change_matches_the_name@{node.lineno}", A.change_of(x) == TOpt(TName).some(ch.t), node.lineno, kind="safety")
+                if isinstance(dr, E._StrLit) and dr.s in ("up", "down"):
+                    up = z3.BoolVal(dr.s == "up")
+                elif isinstance(dr, E._StrChoice) and isinstance(dr.a, E._StrLit) and isinstance(dr.b, E._StrLit) and {dr.a.s, dr.b.s} == {"up", "down"}:
+                    up = dr.c if dr.a.s == "up" else z3.Not(dr.c)
+                else:
+                    raise OutOfSubset("add_node direction is not 'up' / 'down'")
+                eng.oblige(st, f"add_node.direction_matches_the_name@{node.lineno}", A.up_of(x) == up, node.lineno, kind="safety")
+            elif set(kw) - {"kind"}:
+                raise OutOfSubset("add_node(kind='place') with further attributes")
+            a_, b_ = z3.Const(fresh_name("a"), PNode), z3.Const(fresh_name("b"), PNode)
+            e2 = z3.Const(fresh_name("edges"), _ES)
+            st.assume(z3.ForAll([a_, b_], e2[a_][b_] == z3.And(edge[a_][b_], z3.Or(nodes[x], z3.And(a_ != x, b_ != x))), patterns=[e2[a_][b_]]))
+            eng.assign(recv_expr, Val(TPNG, PNGraph.mk(z3.Store(nodes, x, True), e2)), st)
+            return NONE
+        if meth == "add_edge":
+            # networkx would silently create missing end points; the translation never relies on that: both must exist (obligation)
+            a, b = args[0], args[1]
+            if a.ty != TPNode or b.ty != TPNode:
+                raise OutOfSubset("add_edge between non-node values")
+            eng.oblige(st, f"add_edge.endpoints_present@{node.lineno}", z3.And(nodes[a.t], nodes[b.t]), node.lineno, kind="safety")
+            eng.assign(recv_expr, Val(TPNG, PNGraph.mk(nodes, z3.Store(edge, a.t, z3.Store(edge[a.t], b.t, True)))), st)
+            return NONE
         raise OutOfSubset(f"DiGraph.{meth}")
 
 
@@ -89,6 +143,32 @@ def install(reg):
             return PNGraph.nodes(coll.g.t)[x.t]
         return None
     reg.add_hook("contains", contains)
+
+    def fstring(eng, st, node):
+        """f"tr_{variable}_{direction}_{index}" -> trname(variable, up, index)"""
+        import ast
+        vs = node.values
+        if len(vs) != 6 or not all(isinstance(vs[i], ast.Constant) for i in (0, 2, 4)) or [vs[i].value for i in (0, 2, 4)] != ["tr_", "_", "_"]:
+            return None
+        if not all(isinstance(vs[i], ast.FormattedValue) and vs[i].format_spec is None and vs[i].conversion == -1 for i in (1, 3, 5)):
+            return None
+        var, dr, idx = (eng.ev(vs[i].value, st) for i in (1, 3, 5))
+        if var.ty != TName or idx.ty != TInt:
+            return None
+        if isinstance(dr, E._StrLit) and dr.s in ("up", "down"):
+            up = z3.BoolVal(dr.s == "up")
+        elif isinstance(dr, E._StrChoice) and isinstance(dr.a, E._StrLit) and isinstance(dr.b, E._StrLit) and {dr.a.s, dr.b.s} == {"up", "down"}:
+            up = dr.c if dr.a.s == "up" else z3.Not(dr.c)
+        else:
+            return None
+        return Val(TPNode, trname(var.t, up, idx.t))
+    reg.hooks.setdefault("fstring", []).insert(0, fstring)
+
+    def digraph(eng, st, node):
+        if node.args or node.keywords:
+            raise OutOfSubset("DiGraph(...) with arguments")
+        return Val(TPNG, PNGraph.mk(z3.K(PNode, z3.BoolVal(False)), z3.K(PNode, z3.K(PNode, z3.BoolVal(False)))))
+    reg.global_calls["DiGraph"] = digraph
 
     def deepcopy(eng, st, node):
         return eng.ev(node.args[0], st)
